@@ -7,15 +7,17 @@
 (* through handle h (0 = the logger, 1 = its clone).  Waits are generated *)
 (* only in front of the time-driven calls (needs / mark), and `needs`     *)
 (* only when the model time since the last mark is at least Margin away   *)
-(* from the flush interval.  Ctor = "new" (600 s interval, timer starts   *)
+(* from the flush interval.  ctor = "new" (600 s interval, timer starts   *)
 (* now) or "interval" (with_flush_interval: Interval ms, timer starts in  *)
 (* the past so that the first needs_flush() is true).                     *)
 (***************************************************************************)
 EXTENDS XAccessLogger, TLC, Json
 
-CONSTANTS Cap, NI, Ctor, Interval, Waits, Margin, MaxOps, AltHandle
+CONSTANTS Caps, Ctors, NI, Interval, Waits, Margin, MaxOps, AltHandle,
+          Sim     \* TRUE (-simulate): one random candidate per step instead of all of them
 
-VARIABLES hist, s, fe, done,
+VARIABLES cap, ctor,    \* chosen in Init from Caps x Ctors
+          hist, s, fe, done,
           logged      \* history: every event logged since the last clear, in order
 
 Op(t, id, a, w, ids) == [t |-> t, id |-> id, a |-> a, w |-> w, ids |-> ids]
@@ -31,16 +33,24 @@ Timed   == { Op("mark", 0, 0, 0, <<>>), Op("needs", 0, 0, 0, <<>>) }
 Past == 1000000
 Cap2 == Interval + Margin
 Min(a, b) == IF a < b THEN a ELSE b
-Iv == IF Ctor = "new" THEN 600000 ELSE Interval
+Iv == IF ctor = "new" THEN 600000 ELSE Interval
 
-Init == hist = <<>> /\ s = InitS /\ done = FALSE /\ logged = <<>>
-        /\ fe = IF Ctor = "new" THEN 0 ELSE Past
+Init == /\ cap \in Caps /\ ctor \in Ctors
+        /\ hist = <<>> /\ s = InitS /\ done = FALSE /\ logged = <<>>
+        /\ fe = IF ctor = "new" THEN 0 ELSE Past
+
+Cands == { <<0, op, via>> : op \in Plain \ {o \in Plain : o.t = "log"}, via \in {"-"} }
+    \cup { <<0, op, via>> : op \in {o \in Plain : o.t = "log"}, via \in {"access", "doc"} }
+    \cup { <<d, op, "-">> : d \in Waits, op \in Timed }
+
+Fe1(d) == IF fe = Past THEN Past ELSE Min(fe + d, Cap2)
+NeedsClear(d) == Fe1(d) = Past \/ ctor = "new" \/ Fe1(d) + Margin <= Interval \/ Fe1(d) >= Interval + Margin
 
 Do(d, op, via, h) ==
-  LET fe1 == IF fe = Past THEN Past ELSE Min(fe + d, Cap2)
+  LET fe1 == Fe1(d)
       nf  == fe1 = Past \/ fe1 >= Iv
-      r   == Apply(s, Cap, op, nf)
-  IN /\ op.t = "needs" => (fe1 = Past \/ Ctor = "new" \/ fe1 + Margin <= Interval \/ fe1 >= Interval + Margin)
+      r   == Apply(s, cap, op, nf)
+  IN /\ op.t = "needs" => NeedsClear(d)
      /\ s' = r.s
      /\ fe' = IF op.t = "mark" THEN 0 ELSE fe1
      /\ logged' = CASE op.t = "clear" -> <<>>
@@ -52,20 +62,23 @@ Do(d, op, via, h) ==
                               d |-> d, h |-> h, via |-> via,
                               pn |-> IF op.t = "needs" THEN (IF nf THEN "ge" ELSE "lt") ELSE "-"])
 
-Step == /\ Len(hist) < MaxOps /\ ~done /\ done' = FALSE
+Step == /\ Len(hist) < MaxOps /\ ~done /\ done' = FALSE /\ UNCHANGED <<cap, ctor>>
         /\ \E h \in (IF AltHandle THEN {Len(hist) % 2} ELSE {0, 1}) :
-             \/ \E op \in Plain : \E via \in (IF op.t = "log" THEN {"access", "doc"} ELSE {"-"}) : Do(0, op, via, h)
-             \/ \E op \in Timed, d \in Waits : Do(d, op, "-", h)
+             IF Sim
+             THEN LET c == RandomElement(Cands) IN
+                  \* a needs_flush() too close to the interval is replaced by mark_flushed()
+                  IF c[2].t = "needs" /\ ~NeedsClear(c[1]) THEN Do(c[1], Op("mark", 0, 0, 0, <<>>), "-", h) ELSE Do(c[1], c[2], c[3], h)
+             ELSE \E c \in Cands : Do(c[1], c[2], c[3], h)
 
-Finish == Len(hist) = MaxOps /\ ~done /\ done' = TRUE /\ UNCHANGED <<hist, s, fe, logged>>
+Finish == Len(hist) = MaxOps /\ ~done /\ done' = TRUE /\ UNCHANGED <<hist, s, fe, logged, cap, ctor>>
 
 Next == Step \/ Finish
 
-Emit == done => PrintT(ToJson([cap |-> Cap, ni |-> NI, ctor |-> Ctor, interval |-> Interval, steps |-> hist]))
+Emit == done => PrintT(ToJson([cap |-> cap, ni |-> NI, ctor |-> ctor, interval |-> Interval, steps |-> hist]))
 
 Suffix(q, m) == SubSeq(q, Len(q) - m + 1, Len(q))
-ModelOk == /\ Len(s.buf) <= Cap
-           /\ s.buf = Suffix(logged, Min(Cap, Len(logged)))
+ModelOk == /\ Len(s.buf) <= cap
+           /\ s.buf = Suffix(logged, Min(cap, Len(logged)))
            /\ s.tot >= Len(logged)
            /\ \A w \in 1..4 : Len(WindowOf(s.buf, w)) <= Len(s.buf)
            /\ WindowOf(s.buf, 4) = s.buf
